@@ -48,6 +48,8 @@ def make_event(rng, names=None):
     if r < 0.25:
         return Event(name, delay=rng.choice([-2, 1, 2, 3, 7]))
     if r < 0.4:
+        if rng.random() < 0.2:
+            return Event(name, v=rng.choice([10 ** 12, -7, 0, 255, 256, 65536, True, None, 'text', '\u00e9\u00e8', '']))
         return Event(name, v=rng.randint(0, 3))
     if r < 0.45:
         return Event(name, delay=rng.choice([0, 2]), v=rng.randint(0, 3))
@@ -71,6 +73,8 @@ class ScenarioSpec:
         self.p_detach = 0.0
         self.strip_contracts = False
         self.guard_init = 'random'
+        self.p_long = 0.04          # probability of a long scenario (80-140 operations)
+        self.p_burst = 0.03         # per operation: queue a burst of 10-25 events at once
         self.p_mirror = 0.0         # probability that a queued external event copies name and parameters of a pending internal one
         self.__dict__.update(kw)
 
@@ -145,7 +149,7 @@ def run_scenario(rng, chart, spec, cases, stats, chart_key, script=None):
                      listener_order=order)
     holder['sc'] = sc
     sc.interp._evaluator._context['g'] = g0
-    n = rng.randint(*spec.n_ops)
+    n = rng.randint(80, 140) if rng.random() < spec.p_long else rng.randint(*spec.n_ops)
     used = sorted({t.event for t in chart._transitions if t.event})
     import re
     code = [t.action or '' for t in chart._transitions] + [getattr(st, a, None) or '' for st in chart._states.values()
@@ -196,6 +200,10 @@ def run_scenario(rng, chart, spec, cases, stats, chart_key, script=None):
             sc.detach(lid)
             if was_on and kind in ('callable', 'rec') and rng.random() < 0.6:
                 sc.add_listener(kind)        # a target swapped for another one, no step in between
+            continue
+        if spec.p_burst and rng.random() < spec.p_burst:
+            for _ in range(rng.randint(10, 25)):
+                sc.interp.queue(make_event(rng, used))      # (not captured one by one: the next captured operation starts from here)
             continue
         if r < spec.p_clock + spec.p_bits + spec.p_queue:
             ev = make_event(rng, used)
